@@ -283,24 +283,33 @@ class Runner:
             if rel in relS and note.startswith("failed"):
                 first = os.path.basename(rel)
                 break
-        self.fault_variants(S, kinds, C, len(trace))
+        self.fault_variants(S, kinds, C, trace)
         k = len(S)
         self.classes.add(
             f"noclobber first={self.site_kind(first) if first else '-'} |S|={'1' if k == 1 else ('all' if k == len(C) else 'some')} "
             f"kind={kinds[first] if first else '-'} fmt={self.case['fmt']} log={int(self.case['write_log'])}")
 
-    def fault_variants(self, S, kinds, C, nevents):
+    def fault_variants(self, S, kinds, C, trace):
         """The same --no-clobber run with an I/O error or a kill injected at a
         seeded event: whatever else happens, the pre-existing files stay as
         they were."""
+        nevents = len(trace)
         if nevents < 2 or self.violations:
             return
         rng = random.Random(f"{self.case['subset_seed']}:{','.join(sorted(S))}")
-        if rng.random() < 0.5 and self.tier == "quick":
+        # every singleton and the full set get fault variants; other subsets half of the time
+        if 1 < len(S) < len(C) and rng.random() < 0.5 and self.tier == "quick":
             return
-        for _ in range(2 if self.tier == "quick" else 8):
-            kind = rng.choice(["enospc", "eio_write", "crash", "torn_write", "short_write", "eio_open", "eio_open"])
-            at = rng.randrange(nevents)
+        # fault points are drawn from the events at which the kind can fire
+        ops = [t[2] for t in trace]
+        writes = [i for i, o in enumerate(ops) if o == "write"]
+        wopens = [i for i, o in enumerate(ops) if o.startswith("open:") and is_mutating_op(o)]
+        for _ in range(3 if self.tier == "quick" else 10):
+            kind = rng.choice(["enospc", "eio_write", "crash", "torn_write", "short_write", "eio_open", "enospc", "eio_write"])
+            pool = wopens if kind == "eio_open" else (list(range(nevents)) if kind == "crash" else writes)
+            if not pool:
+                continue
+            at = rng.choice(pool)
             self.wipe_out()
             ident = self.plant(S, kinds, C)
             fo = Fault(kind, at, rng.random())
